@@ -264,63 +264,12 @@ Proof.
   - rewrite (K _ M). constructor.
 Qed.
 
-Definition Good (td : tdata) : Prop := Inv td /\ KeysInv td /\ SortedInv td.
+(* ---------- storage keys are names of live indexes (no orphaned storage) ---------- *)
+Definition NoStaleP (ds : list (name * idef)) (ks : list name) : Prop :=
+  forall k, In k ks -> def_named ds k <> None.
+Definition NoStale (td : tdata) : Prop := NoStaleP (defs td) (skeys td).
 
-Lemma Good_apply_edits td dels adds td' :
-  Inv td -> KeysInv td -> apply_fresh td dels adds = true -> apply_edits td dels adds = Ok td' -> Good td'.
-Proof.
-  intros I K F E. pose proof (Inv_apply_edits _ _ _ _ I F E) as I'. unfold apply_edits in E.
-  pose proof (Inv_apply_rows _ _ _ I F) as I1. pose proof (KeysInv_apply_rows td dels adds K) as K1.
-  destruct (pkcols td).
-  - split; [exact I'|]. split; [eapply KeysInv_sort_secondary; eassumption | eapply SortedInv_sort_secondary; eassumption].
-  - pose proof (Inv_sort_rows _ I1) as I2. pose proof (KeysInv_sort_rows _ K1) as K2.
-    split; [exact I'|]. split; [eapply KeysInv_sort_secondary; eassumption | eapply SortedInv_sort_secondary; eassumption].
-Qed.
-
-Lemma Good_truncate td : defs_ok (defs td) -> Good (truncate td).
-Proof.
-  intros OK. split; [apply Inv_truncate; exact OK|]. split.
-  - intros nm _. reflexivity.
-  - intros k d _. cbn. constructor.
-Qed.
-
-Theorem Good_step hp td o td' : Good td -> step_ok hp td o = true -> step hp td o = Ok td' -> Good td'.
-Proof.
-  intros (I & K & S) SO E. destruct o as [dels adds| |d|nm|a b| |d]; cbn in E.
-  - eapply Good_apply_edits; eassumption.
-  - injection E as <-. apply Good_truncate. apply I.
-  - unfold create_index in E. cbn in SO. destruct (def_keyed (defs td) (lower (iname d))) eqn:F.
-    + injection E as <-. exact (conj I (conj K S)).
-    + assert (G : Good (truncate (add_def td d))) by (apply Good_truncate; cbn; apply defs_ok_add; [apply I | exact F]).
-      destruct G as (I0 & K0 & _). eapply Good_apply_edits; eassumption.
-  - injection E as <-. split; [apply Inv_drop_index; exact I|]. unfold drop_index.
-    destruct (def_keyed (defs td) (lower nm)); [|split; assumption]. split.
-    + intros n Hm. cbn [stor skeys] in *. rewrite mem_filter_ne in Hm. destruct (name_eqb n (lower nm)); [reflexivity|].
-      cbn in Hm. rewrite andb_true_r in Hm. apply K. exact Hm.
-    + intros k d Hd. cbn [stor defs] in *. apply filter_In in Hd. destruct Hd as [Hd _].
-      destruct (name_eqb (iname d) (lower nm)); [constructor | apply (S _ _ Hd)].
-  - discriminate.
-  - injection E as <-. exact (conj I (conj K S)).
-  - discriminate.
-Qed.
-
-Theorem Good_run hp h : forall td td', Good td -> hist_ok hp td h = true -> run hp td h = Ok td' -> Good td'.
-Proof.
-  induction h as [|o t IH]; intros td td' G S E; cbn in *.
-  - injection E as <-. exact G.
-  - apply andb_prop in S. destruct S as [S1 S2]. destruct (step hp td o) as [td1|] eqn:E1; [|discriminate].
-    eapply IH; [eapply Good_step; eassumption | exact S2 | exact E].
-Qed.
-
-Lemma Good_init n pks : Good (init n pks).
-Proof. split; [apply Inv_init|]. split; [intros nm _; reflexivity | intros k d []]. Qed.
-
-(* ---------- no panic when every index name is lower-case ---------- *)
-Definition Low (ds : list (name * idef)) (ks : list name) : Prop :=
-  defs_ok ds /\ (forall k d, In (k, d) ds -> snd (iname d) = false) /\
-  (forall k, In k ks -> snd k = false /\ def_keyed ds k <> None).
-
-Definition LowInv (td : tdata) : Prop := Low (defs td) (skeys td).
+Definition Good (td : tdata) : Prop := Inv td /\ KeysInv td /\ SortedInv td /\ NoStale td.
 
 Lemma mem_name_In n l : mem_name n l = true <-> In n l.
 Proof.
@@ -329,136 +278,218 @@ Proof.
   - intros H. exists n. split; [exact H | apply name_eqb_refl].
 Qed.
 
-Lemma lower_low k : snd k = false -> lower k = k.
-Proof. destruct k as [a b]. cbn. intros ->. reflexivity. Qed.
-
-Lemma Low_fold_add ds ks : Low ds ks -> Low ds (fold_left (fun ks kd => add_key (iname (snd kd)) ks) ds ks).
+Lemma def_named_of_in ds k d : In (k, d) ds -> def_named ds (iname d) <> None.
 Proof.
-  intros (OK & L1 & L2). split; [exact OK|]. split; [exact L1|]. intros k H.
-  apply mem_name_In in H. rewrite mem_fold_add in H. apply orb_prop in H. destruct H as [H|H].
-  - apply L2. apply mem_name_In. exact H.
+  intros H. unfold def_named. destruct (find (fun kd => name_eqb (iname (snd kd)) (iname d)) ds) eqn:F; [discriminate|].
+  eapply find_none in F; [|exact H]. cbn in F. rewrite name_eqb_refl in F. discriminate.
+Qed.
+
+Lemma def_named_some ds nm d : def_named ds nm = Some d -> exists k, In (k, d) ds /\ iname d = nm.
+Proof.
+  unfold def_named. destruct (find (fun kd => name_eqb (iname (snd kd)) nm) ds) as [[k d']|] eqn:F; [|discriminate].
+  intros E. injection E as <-. apply find_some in F. destruct F as [F1 F2]. cbn in F2. apply name_eqb_eq in F2. eauto.
+Qed.
+
+Lemma NoStaleP_fold_add ds ks : NoStaleP ds ks -> NoStaleP ds (fold_left (fun ks kd => add_key (iname (snd kd)) ks) ds ks).
+Proof.
+  intros N k H. apply mem_name_In in H. rewrite mem_fold_add in H. apply orb_prop in H. destruct H as [H|H].
+  - apply N. apply mem_name_In. exact H.
   - apply existsb_exists in H. destruct H as ([k0 d] & Hin & E). cbn in E. apply name_eqb_eq in E. subst k.
-    pose proof (L1 _ _ Hin) as Hl. split; [exact Hl|].
-    pose proof (proj2 OK _ _ Hin) as Ek. rewrite (lower_low _ Hl) in Ek. subst k0.
-    rewrite (def_keyed_in _ _ _ OK Hin). discriminate.
+    eapply def_named_of_in. exact Hin.
 Qed.
 
 Lemma skeys_delete_helper td r : skeys (delete_helper td r) = skeys td.
 Proof. unfold delete_helper. destruct (find_row (del_pred td r) (parts td) 0); reflexivity. Qed.
 
-Lemma LowInv_delete_helper td r : LowInv td -> LowInv (delete_helper td r).
-Proof. unfold LowInv. rewrite defs_delete_helper, skeys_delete_helper. auto. Qed.
+Lemma NoStale_delete_helper td r : NoStale td -> NoStale (delete_helper td r).
+Proof. unfold NoStale. rewrite defs_delete_helper, skeys_delete_helper. auto. Qed.
 
-Lemma LowInv_insert_helper td p r : LowInv td -> LowInv (insert_helper td p r).
+Lemma NoStale_insert_helper td p r : NoStale td -> NoStale (insert_helper td p r).
 Proof.
-  unfold LowInv, insert_helper.
+  unfold NoStale, insert_helper.
   destruct (match pkcols td with [] => None | n :: l => find_row (fun x => pk_match (n :: l) x r) (parts td) 0 end);
-    cbn; apply Low_fold_add.
+    cbn; apply NoStaleP_fold_add.
 Qed.
 
-Lemma LowInv_apply_rows td dels adds : LowInv td -> LowInv (apply_rows td dels adds).
+Lemma NoStale_apply_rows td dels adds : NoStale td -> NoStale (apply_rows td dels adds).
 Proof.
   intros K. unfold apply_rows.
-  assert (K1 : LowInv (fold_left delete_helper dels td)).
-  { revert td K. induction dels as [|r t IH]; intros td K; cbn; [exact K|]. apply IH. apply LowInv_delete_helper. exact K. }
+  assert (K1 : NoStale (fold_left delete_helper dels td)).
+  { revert td K. induction dels as [|r t IH]; intros td K; cbn; [exact K|]. apply IH. apply NoStale_delete_helper. exact K. }
   revert K1. generalize (fold_left delete_helper dels td). induction adds as [|a t IH]; intros td0 K0; cbn; [exact K0|].
-  apply IH. apply LowInv_insert_helper. exact K0.
+  apply IH. apply NoStale_insert_helper. exact K0.
 Qed.
 
-Lemma LowInv_swap td l1 l2 : LowInv td -> LowInv (swap_td td l1 l2).
+Lemma NoStale_swap td l1 l2 : NoStale td -> NoStale (swap_td td l1 l2).
 Proof.
-  unfold LowInv, swap_td. destruct (row_at (parts td) l1); [|auto]. destruct (row_at (parts td) l2); auto.
+  unfold NoStale, swap_td. destruct (row_at (parts td) l1); [|auto]. destruct (row_at (parts td) l2); auto.
 Qed.
 
-Lemma LowInv_bubble_pass ls : forall td, LowInv td -> LowInv (bubble_pass td ls).
+Lemma NoStale_bubble_pass ls : forall td, NoStale td -> NoStale (bubble_pass td ls).
 Proof.
   induction ls as [|l1 t IH]; intros td K; cbn; [exact K|]. destruct t as [|l2 t']; [exact K|].
   apply IH. destruct (row_at (parts td) l1); [|exact K]. destruct (row_at (parts td) l2); [|exact K].
-  destruct (row_cmp (pkcols td) r r0); try exact K. apply LowInv_swap. exact K.
+  destruct (row_cmp (pkcols td) r r0); try exact K. apply NoStale_swap. exact K.
 Qed.
 
-Lemma LowInv_sort_rows td : LowInv td -> LowInv (sort_rows td).
+Lemma NoStale_sort_rows td : NoStale td -> NoStale (sort_rows td).
 Proof.
   unfold sort_rows. generalize (length (flat_locs (parts td))). intros n. revert td.
-  induction n as [|n IH]; intros td K; cbn; [exact K|]. apply IH. apply LowInv_bubble_pass. exact K.
+  induction n as [|n IH]; intros td K; cbn; [exact K|]. apply IH. apply NoStale_bubble_pass. exact K.
 Qed.
 
-Lemma LowInv_sort_secondary_ok td : LowInv td -> exists td', sort_secondary td = Ok td' /\ LowInv td'.
+(* with no orphaned storage, sortSecondaryIndexes finds an index for every storage key: it cannot panic *)
+Lemma sort_secondary_ok td : Inv td -> NoStale td -> exists td', sort_secondary td = Ok td' /\ NoStale td'.
 Proof.
-  intros (OK & L1 & L2). unfold sort_secondary.
+  intros [OK W] N. unfold sort_secondary.
   assert (E : existsb (stale_key td) (skeys td) = false).
   { destruct (existsb (stale_key td) (skeys td)) eqn:E; [|reflexivity]. apply existsb_exists in E.
-    destruct E as (k & Hk & S). destruct (L2 _ Hk) as [Hl Hd]. unfold stale_key in S.
-    rewrite (lower_low _ Hl) in S. destruct (def_keyed (defs td) k); [discriminate|congruence]. }
-  rewrite E. eexists. split; [reflexivity|]. split; [exact OK|]. split; assumption.
+    destruct E as (k & Hk & S). exfalso. specialize (N _ Hk). destruct (def_named (defs td) k) as [d|] eqn:D; [|congruence].
+    apply def_named_some in D. destruct D as (k0 & Hin & <-). unfold stale_key in S.
+    rewrite <- (proj2 OK _ _ Hin), (def_keyed_in _ _ _ OK Hin) in S. discriminate. }
+  rewrite E. eexists. split; [reflexivity|]. exact N.
 Qed.
 
-Lemma pkcols_apply_rows td dels adds : pkcols (apply_rows td dels adds) = pkcols td.
+Lemma Good_apply_edits td dels adds :
+  Inv td -> KeysInv td -> NoStale td -> apply_fresh td dels adds = true ->
+  exists td', apply_edits td dels adds = Ok td' /\ Good td'.
 Proof.
-  unfold apply_rows.
-  assert (E : pkcols (fold_left delete_helper dels td) = pkcols td).
-  { revert td. induction dels as [|r t IH]; intros td; cbn; [reflexivity|]. rewrite IH. apply pkcols_delete_helper. }
-  rewrite <- E. generalize (fold_left delete_helper dels td). induction adds as [|a t IH]; intros td0; cbn; [reflexivity|].
-  rewrite IH. unfold insert_helper.
-  destruct (match pkcols td0 with [] => None | n :: l => find_row (fun x => pk_match (n :: l) x (snd a)) (parts td0) 0 end); reflexivity.
+  intros I K N F. pose proof (Inv_apply_rows _ _ _ I F) as I1. pose proof (KeysInv_apply_rows td dels adds K) as K1.
+  pose proof (NoStale_apply_rows td dels adds N) as N1. unfold apply_edits. destruct (pkcols td) eqn:P.
+  - destruct (sort_secondary_ok _ I1 N1) as (td' & E & N'). exists td'. split; [exact E|].
+    split; [eapply Inv_sort_secondary; eassumption|]. split; [eapply KeysInv_sort_secondary; eassumption|].
+    split; [eapply SortedInv_sort_secondary; eassumption | exact N'].
+  - pose proof (Inv_sort_rows _ I1) as I2. pose proof (KeysInv_sort_rows _ K1) as K2. pose proof (NoStale_sort_rows _ N1) as N2.
+    destruct (sort_secondary_ok _ I2 N2) as (td' & E & N'). exists td'. split; [exact E|].
+    split; [eapply Inv_sort_secondary; eassumption|]. split; [eapply KeysInv_sort_secondary; eassumption|].
+    split; [eapply SortedInv_sort_secondary; eassumption | exact N'].
 Qed.
 
-Lemma LowInv_apply_edits td dels adds : LowInv td -> exists td', apply_edits td dels adds = Ok td' /\ LowInv td'.
+Lemma Good_truncate td : defs_ok (defs td) -> Good (truncate td).
 Proof.
-  intros K. unfold apply_edits. pose proof (LowInv_apply_rows td dels adds K) as K1.
-  destruct (pkcols td); [apply LowInv_sort_secondary_ok; exact K1|].
-  apply LowInv_sort_secondary_ok. apply LowInv_sort_rows. exact K1.
+  intros OK. split; [apply Inv_truncate; exact OK|]. split; [intros nm _; reflexivity|].
+  split; [intros k d _; cbn; constructor | intros k []].
 Qed.
 
-Lemma find_app_c16 {A} (f : A -> bool) (a b : list A) :
-  find f (a ++ b) = match find f a with Some x => Some x | None => find f b end.
-Proof. induction a as [|x t IH]; cbn; [reflexivity|]. destruct (f x); [reflexivity | exact IH]. Qed.
-
-Lemma def_keyed_app_some ds x k : def_keyed ds k <> None -> def_keyed (ds ++ [x]) k <> None.
+Lemma wf_icols d d' ps es : icols d = icols d' -> wf d ps es -> wf d' ps es.
 Proof.
-  unfold def_keyed. rewrite find_app_c16. destruct (find (fun kd => name_eqb (fst kd) k) ds); [discriminate|congruence].
+  intros E (N & K & C). split; [exact N|]. split; [|exact C]. intros k l H. destruct (K _ _ H) as (r & Hr & ->).
+  exists r. split; [exact Hr|]. unfold key_of. rewrite E. reflexivity.
 Qed.
 
-Lemma def_keyed_filter_ne ds k k' : k' <> k ->
-  def_keyed (filter (fun kd => negb (name_eqb (fst kd) k)) ds) k' = def_keyed ds k'.
+Lemma def_keyed_filter_none ds f k : def_keyed ds k = None -> def_keyed (filter f ds) k = None.
 Proof.
-  intros NE. unfold def_keyed. induction ds as [|[k0 d0] t IH]; [reflexivity|]. cbn [filter fst].
-  destruct (name_eqb k0 k) eqn:E; cbn [negb].
-  - apply name_eqb_eq in E. subst k0. cbn [find fst].
-    replace (name_eqb k k') with false by (symmetry; apply name_eqb_neq; congruence). exact IH.
-  - cbn [find fst]. destruct (name_eqb k0 k'); [reflexivity | exact IH].
+  intros H. apply def_keyed_none in H. unfold def_keyed.
+  destruct (find (fun kd => name_eqb (fst kd) k) (filter f ds)) as [[k' d']|] eqn:F; [|reflexivity].
+  exfalso. apply find_some in F. destruct F as [F1 F2]. cbn in F2. apply name_eqb_eq in F2. subst k'.
+  apply filter_In in F1. destruct F1 as [F1 _]. apply H. apply (in_map fst) in F1. exact F1.
 Qed.
 
-Theorem LowInv_step hp td o :
-  LowInv td -> op_lower o = true -> exists td', step hp td o = Ok td' /\ (step_ok hp td o = true -> LowInv td').
+Lemma no_def_named ds nm : defs_ok ds -> def_keyed ds (lower nm) = None -> def_named ds nm = None.
 Proof.
-  intros K Lo. destruct o as [dels adds| |d|nm|a b| |d]; cbn [step].
-  - destruct (LowInv_apply_edits td dels (map (fun r => (hp r, r)) adds) K) as (td' & E & K'). eauto.
-  - eexists. split; [reflexivity|]. intros _. destruct K as (OK & L1 & _). split; [exact OK|]. split; [exact L1|]. intros k [].
-  - unfold create_index. destruct (def_keyed (defs td) (lower (iname d))) eqn:F; [eauto|].
-    assert (K0 : LowInv (truncate (add_def td d))).
-    { destruct K as (OK & L1 & _). cbn in Lo. apply negb_true_iff in Lo. split; [cbn; apply defs_ok_add; assumption|]. split.
-      - intros k d' H. cbn in H. apply in_app_or in H. destruct H as [H|[H|[]]]; [eapply L1; exact H|]. injection H as _ <-. exact Lo.
-      - intros k []. }
-    destruct (LowInv_apply_edits _ [] (map (fun r => (hp r, r)) (all_rows td)) K0) as (td' & E & K'). eauto.
-  - eexists. split; [reflexivity|]. intros _. unfold drop_index.
-    destruct (def_keyed (defs td) (lower nm)); [|exact K]. destruct K as (OK & L1 & L2). split; [cbn; apply defs_ok_filter; exact OK|]. split.
-    + intros k d H. cbn in H. apply filter_In in H. destruct H as [H _]. eapply L1. exact H.
-    + intros k H. cbn in H. apply filter_In in H. destruct H as [H NE]. apply negb_true_iff in NE. apply name_eqb_neq in NE.
-      destruct (L2 _ H) as [Hl Hd]. split; [exact Hl|]. cbn. rewrite def_keyed_filter_ne by exact NE. exact Hd.
-  - eexists. split; [reflexivity|]. intros S. discriminate.
+  intros OK H. destruct (def_named ds nm) as [d|] eqn:D; [|reflexivity]. exfalso.
+  apply def_named_some in D. destruct D as (k & Hin & <-). apply def_keyed_none in H. apply H.
+  rewrite <- (proj2 OK _ _ Hin). apply (in_map fst) in Hin. exact Hin.
+Qed.
+
+(* a remaining definition after the one keyed [k0] is filtered out *)
+Lemma in_filtered ds k0 d0 k d :
+  defs_ok ds -> In (k0, d0) ds -> In (k, d) ds -> iname d <> iname d0 ->
+  In (k, d) (filter (fun kd => negb (name_eqb (fst kd) k0)) ds).
+Proof.
+  intros OK H0 H NE. apply filter_In. split; [exact H|]. cbn. apply negb_true_iff. apply name_eqb_neq. intros ->.
+  apply NE. f_equal. eapply nodup_fst_inj; [apply OK | exact H | exact H0].
+Qed.
+
+Lemma Good_drop_index td nm : Good td -> Good (drop_index td nm).
+Proof.
+  intros (I & K & S & N). split; [apply Inv_drop_index; exact I|]. unfold drop_index.
+  destruct (def_keyed (defs td) (lower nm)) as [d|] eqn:F; [|exact (conj K (conj S N))].
+  pose proof (def_keyed_some _ _ _ F) as Hd. destruct I as [OK W]. split; [|split].
+  - intros n Hm. cbn [stor skeys] in *. rewrite mem_filter_ne in Hm. destruct (name_eqb n (iname d)); [reflexivity|].
+    cbn in Hm. rewrite andb_true_r in Hm. apply K. exact Hm.
+  - intros k d2 H2. cbn [stor defs] in *. apply filter_In in H2. destruct H2 as [H2 _].
+    destruct (name_eqb (iname d2) (iname d)); [constructor | apply (S _ _ H2)].
+  - intros k Hk. cbn [skeys defs] in *. apply filter_In in Hk. destruct Hk as [Hk NE]. apply negb_true_iff in NE.
+    apply name_eqb_neq in NE. specialize (N _ Hk). destruct (def_named (defs td) k) as [d2|] eqn:D; [|congruence].
+    apply def_named_some in D. destruct D as (k2 & H2 & E2). subst k.
+    eapply def_named_of_in. eapply in_filtered; eauto.
+Qed.
+
+Lemma Good_rename_index td a b : Good td -> Good (rename_index td a b).
+Proof.
+  intros (I & K & S & N). unfold rename_index. destruct (name_eqb a b); [exact (conj I (conj K (conj S N)))|].
+  destruct (def_keyed (defs td) (lower a)) as [d|] eqn:Fa; [|exact (conj I (conj K (conj S N)))].
+  destruct (def_keyed (defs td) (lower b)) eqn:Fb; [exact (conj I (conj K (conj S N)))|].
+  pose proof (def_keyed_some _ _ _ Fa) as Hd. destruct I as [OK W].
+  set (d' := {| iname := b; icols := icols d; nsort := nsort d |}).
+  set (fds := filter (fun kd => negb (name_eqb (fst kd) (lower a))) (defs td)).
+  assert (OK' : defs_ok (fds ++ [(lower b, d')])).
+  { apply (defs_ok_add fds d'); [apply defs_ok_filter; exact OK | apply def_keyed_filter_none; exact Fb]. }
+  assert (NB : def_named (defs td) b = None) by (apply no_def_named; assumption).
+  assert (SB : mem_name b (skeys td) = false).
+  { destruct (mem_name b (skeys td)) eqn:M; [|reflexivity]. apply mem_name_In in M. apply N in M. congruence. }
+  (* a definition that stays: its name is neither the old nor the new one *)
+  assert (STAY : forall k d2, In (k, d2) fds -> In (k, d2) (defs td) /\ iname d2 <> iname d /\ iname d2 <> b).
+  { intros k d2 H. apply filter_In in H. destruct H as [H NE]. cbn in NE. apply negb_true_iff in NE. apply name_eqb_neq in NE.
+    split; [exact H|]. split.
+    - intros E. apply NE. pose proof (defs_ok_names _ _ _ _ _ OK H Hd E) as EE. congruence.
+    - intros E. pose proof (def_named_of_in _ _ _ H) as X. rewrite E, NB in X. congruence. }
+  destruct (mem_name (iname d) (skeys td)) eqn:M.
+  - (* the storage moves *)
+    split; [split; [exact OK'|]|split; [|split]].
+    + intros k d2 H. cbn [defs stor parts] in *. apply in_app_or in H. destruct H as [H|[H|[]]].
+      * destruct (STAY _ _ H) as (H0 & N1 & N2). apply name_eqb_neq in N1. apply name_eqb_neq in N2. rewrite N2, N1. apply (W _ _ H0).
+      * injection H as <- <-. cbn [iname]. rewrite name_eqb_refl. apply (wf_icols d d'); [reflexivity | apply (W _ _ Hd)].
+    + intros n Hm. cbn [stor skeys] in *. rewrite mem_add_key, mem_filter_ne in Hm. apply orb_false_elim in Hm. destruct Hm as [H1 H2].
+      rewrite H2. destruct (name_eqb n (iname d)); [reflexivity|]. cbn in H1. rewrite andb_true_r in H1. apply K. exact H1.
+    + intros k d2 H. cbn [defs stor] in *. apply in_app_or in H. destruct H as [H|[H|[]]].
+      * destruct (STAY _ _ H) as (H0 & N1 & N2). apply name_eqb_neq in N1. apply name_eqb_neq in N2. rewrite N2, N1. apply (S _ _ H0).
+      * injection H as <- <-. cbn [iname nsort]. rewrite name_eqb_refl. apply (S _ _ Hd).
+    + intros k Hk. cbn [skeys defs] in *. apply mem_name_In in Hk. rewrite mem_add_key, mem_filter_ne in Hk.
+      apply orb_prop in Hk. destruct Hk as [Hk|Hk].
+      * apply andb_prop in Hk. destruct Hk as [H1 H2]. apply mem_name_In in H1. apply negb_true_iff in H2. apply name_eqb_neq in H2.
+        specialize (N _ H1). destruct (def_named (defs td) k) as [d2|] eqn:D; [|congruence].
+        apply def_named_some in D. destruct D as (k2 & Hin & E2). subst k.
+        apply (def_named_of_in _ k2 d2). apply in_or_app. left. eapply in_filtered; eauto.
+      * apply name_eqb_eq in Hk. subst k. apply (def_named_of_in _ (lower b) d'). apply in_or_app. right. left. reflexivity.
+  - (* there was no storage entry: nothing moves; both names hold no storage *)
+    pose proof (K _ M) as E0. pose proof (K _ SB) as EB.
+    split; [split; [exact OK'|]|split; [|split]].
+    + intros k d2 H. cbn [defs stor parts] in *. apply in_app_or in H. destruct H as [H|[H|[]]].
+      * destruct (STAY _ _ H) as (H0 & _ & _). apply (W _ _ H0).
+      * injection H as <- <-. change (iname d') with b. rewrite EB. apply (wf_icols d d'); [reflexivity|]. rewrite <- E0. apply (W _ _ Hd).
+    + exact K.
+    + intros k d2 H. cbn [defs stor] in *. apply in_app_or in H. destruct H as [H|[H|[]]].
+      * destruct (STAY _ _ H) as (H0 & _ & _). apply (S _ _ H0).
+      * injection H as <- <-. change (iname d') with b. rewrite EB. constructor.
+    + intros k Hk. cbn [skeys defs] in *. pose proof (N _ Hk) as X. destruct (def_named (defs td) k) as [d2|] eqn:D; [|congruence].
+      apply def_named_some in D. destruct D as (k2 & Hin & E2). subst k.
+      apply (def_named_of_in _ k2 d2). apply in_or_app. left. eapply in_filtered; eauto.
+      intros E. rewrite E in Hk. apply mem_name_In in Hk. congruence.
+Qed.
+
+(* every operation of a guarded history runs (no panic, whatever the index names) and preserves the invariants *)
+Theorem Good_step hp td o : Good td -> step_ok hp td o = true -> exists td', step hp td o = Ok td' /\ Good td'.
+Proof.
+  intros G SO. pose proof G as (I & K & S & N). destruct o as [dels adds| |d|nm|a b| |d]; cbn [step].
+  - apply Good_apply_edits; assumption.
+  - eexists. split; [reflexivity|]. apply Good_truncate. apply I.
+  - unfold create_index. cbn in SO. destruct (def_keyed (defs td) (lower (iname d))) eqn:F; [eauto|].
+    assert (G0 : Good (truncate (add_def td d))) by (apply Good_truncate; cbn; apply defs_ok_add; [apply I | exact F]).
+    destruct G0 as (I0 & K0 & _ & N0). apply Good_apply_edits; assumption.
+  - eexists. split; [reflexivity|]. apply Good_drop_index. exact G.
+  - eexists. split; [reflexivity|]. apply Good_rename_index. exact G.
   - eauto.
-  - destruct (def_keyed (defs td) (lower (iname d))); eexists; (split; [reflexivity|]); intros S; discriminate.
+  - discriminate.
 Qed.
 
-(* a history whose index names are all lower-case (and which obeys the editor's guard) never panics *)
-Theorem no_panic hp h : forall td,
-  LowInv td -> hist_ok hp td h = true -> forallb op_lower h = true -> run hp td h <> Panic.
+Theorem Good_run hp h : forall td, Good td -> hist_ok hp td h = true -> exists td', run hp td h = Ok td' /\ Good td'.
 Proof.
-  induction h as [|o t IH]; intros td K S L; cbn in *; [discriminate|].
-  apply andb_prop in S. destruct S as [S1 S2]. apply andb_prop in L. destruct L as [L1 L2].
-  destruct (LowInv_step hp td o K L1) as (td' & E & K'). rewrite E in *. apply IH; auto.
+  induction h as [|o t IH]; intros td G S; cbn in *; [eauto|].
+  apply andb_prop in S. destruct S as [S1 S2]. destruct (Good_step hp td o G S1) as (td1 & E & G1).
+  rewrite E in *. apply IH; assumption.
 Qed.
 
-Lemma LowInv_init n pks : LowInv (init n pks).
-Proof. split; [split; [constructor | intros k d []]|]. split; [intros k d [] | intros k []]. Qed.
+Lemma Good_init n pks : Good (init n pks).
+Proof. split; [apply Inv_init|]. split; [intros nm _; reflexivity|]. split; [intros k d [] | intros k []]. Qed.
